@@ -18,6 +18,16 @@ func verifFsEvent(kind string, a string, b string) {
 	}
 }
 
+// VerifMergeFile, when set, is told which input file Merge is about to scan (the engine
+// iterates a map of older files, so the order is not determined by the state).
+var VerifMergeFile func(id uint32)
+
+func verifMergeFile(id uint32) {
+	if VerifMergeFile != nil {
+		VerifMergeFile(id)
+	}
+}
+
 func verifSched(label string) {
 	if VerifSched != nil {
 		VerifSched(label)
